@@ -115,7 +115,25 @@ func (p c06) history(c *fw.Ctx) []c06Step {
 	n := 6 + r.IntN(20)
 	val := func() *gt.Node { return gt.Lit(int64(100 + r.IntN(900))) }
 	for len(steps) < n+5 {
-		switch r.IntN(25) {
+		switch r.IntN(26) {
+		case 25: // merge of two maps of every size combination whose key ranges touch in one key (or not at all)
+			nl, nr := 1+r.IntN(7), 1+r.IntN(8)
+			start := 10 + r.IntN(5)
+			lo := start + nl - 1 + []int{0, 1, -1, 2}[r.IntN(4)] // first key of the right map: the left map's last key, the next one, the one before, ...
+			mk := func(from, n int, val int) *gt.Node {
+				var kids []*gt.Node
+				for i := 0; i < n; i++ {
+					kids = append(kids, gt.Lit(fmt.Sprintf("k%02d", from+i)), gt.Lit(int64(val+i)))
+				}
+				return &gt.Node{K: gt.KMap, Kids: kids}
+			}
+			dst := c06Vars[r.IntN(len(c06Vars))]
+			if r.IntN(2) == 0 {
+				add("plus", gt.Assign(dst, gt.In("+", mk(start, nl, 100), mk(lo, nr, 200))))
+			} else {
+				add("plus", gt.Assign(dst, gt.In("+", mk(lo, nr, 200), mk(start, nl, 100))))
+			}
+			kinds[dst] = "m"
 		case 23, 24: // two results of one call, the key array of one taken out and updated through its own binding, a later call
 			x := c06Vars[r.IntN(len(c06Vars))]
 			y, k := other(x), ""
